@@ -138,3 +138,457 @@ Proof.
   intros j. destruct (klookup (KCplx (Nat.iter j rotT y)) (cs_canon (cget st c))) as [i|] eqn:Ej; [|reflexivity].
   rewrite (rotation_registered_all ct st c _ j i I R D Hk GN Ej) in E. discriminate.
 Qed.
+
+(* ------------------------------------------------------------------ *)
+(* the exact outcome of an automatically named request                  *)
+
+Definition yielded (r : cout) : option nat :=
+  match r with
+  | CRet id _ => Some id
+  | CErr k (Some x) => if is_singleton_err k then Some x else None
+  | CErr _ None => None
+  end.
+
+(* x is a live complex of class c whose canonical form is the canonical form of y *)
+Definition owner_of (st : state) (c : nat) (y : cplx) (x : nat) : Prop :=
+  exists o cn, live_obj (heap st) x o /\ o_cls o = c /\ o_key o = KCplx cn /\ canon_T y = Some cn /\
+               (exists es ss t, o_data o = DCplx es ss t).
+
+Lemma registered_owner ct st c y i :
+  Inv ct st -> ROK st -> DOK ct st -> class_kind ct c = Some KindC -> goodNE y ->
+  klookup (KCplx y) (cs_canon (cget st c)) = Some i -> owner_of st c y i.
+Proof.
+  intros I [K C] D Hk GN E. pose proof (class_kind_lt _ _ _ Hk) as Hc.
+  destruct I as [R HO]. apply (alookup_in key_eqb key_eqb_iff) in E.
+  destruct (ok_cv _ _ _ (ok_cls _ _ R c Hc) _ _ E) as [o [Hl [Ec Hin]]].
+  destruct D as [_ [_ KO]]. pose proof (KO i o Hl) as Kd. rewrite Ec, Hk in Kd. injection Kd as Kd.
+  destruct (o_data o) as [| es ss t | | |] eqn:Ed; try discriminate.
+  destruct (C i o Hl es ss t Ed) as [GNo [_ [KeysR [cn [Ek Ecn]]]]].
+  destruct (KeysR _ Hin) as [k Ey]. injection Ey as ->.
+  exists o, cn. split; [exact Hl|]. split; [exact Ec|]. split; [exact Ek|]. split; [|eauto].
+  rewrite canon_orbit_invariant by exact GNo. exact Ecn.
+Qed.
+
+Theorem unnamed_request_outcome ct st c ci es ss nm :
+  Inv ct st -> ROK st -> DOK ct st -> class_kind ct c = Some KindC ->
+  nth_error ct c = Some ci -> c_fail ci = FNone ->
+  goodNE (map fst es, ss) ->
+  resolve_name ct st c ci None None = Ok nm -> nonempty nm = true ->
+  let r := cplx_call ct c st (Some es) (Some ss) None None in
+  let y := (map fst es, ss) in
+  (* it yields the owner of the canonical form (found or created) ... *)
+  (forall x, yielded (snd r) = Some x -> owner_of (fst r) c y x) /\
+  (* ... or it is refused: SingletonError without `existing`, nothing changed, exactly when the
+     automatic name is bound to a live object that is not the owner *)
+  (yielded (snd r) = None ->
+     snd r = CErr eSingleton None /\ fst r = st /\
+     exists j, nlookup nm (cs_names (cget st c)) = Some j /\
+               klookup (KCplx y) (cs_canon (cget st c)) <> Some j) /\
+  (forall j, nlookup nm (cs_names (cget st c)) = Some j ->
+             klookup (KCplx y) (cs_canon (cget st c)) <> Some j -> snd r = CErr eSingleton None).
+Proof.
+  intros I R D Hk Eci Ef GN En Hne. cbn zeta.
+  destruct (cplx_request_cases ct st c (map fst es, ss) I R D Hk GN) as [[i Ei]|Hn].
+  - (* registered *)
+    rewrite (request_registered ct st c ci i es ss None None nm GN Eci Ei En). cbn [fst snd].
+    pose proof (registered_owner ct st c _ i I R D Hk GN Ei) as O.
+    unfold answer. rewrite Hne. destruct (nlookup nm (cs_names (cget st c))) as [j|] eqn:EN.
+    + destruct (Nat.eqb j i) eqn:Eji.
+      * apply Nat.eqb_eq in Eji. subst j. cbn [yielded]. split; [intros x E; injection E as <-; exact O|].
+        split; [discriminate|]. intros j E Hj. injection E as <-. congruence.
+      * apply Nat.eqb_neq in Eji. cbn [yielded]. split; [discriminate|]. split.
+        -- intros _. split; [reflexivity|]. split; [reflexivity|]. exists j. split; [reflexivity|]. congruence.
+        -- intros j' E _. reflexivity.
+    + cbn [yielded]. rewrite sing_true. split; [intros x E; injection E as <-; exact O|].
+      split; [discriminate | intros j E; discriminate].
+  - (* no rotation registered *)
+    destruct (request_unregistered ct st c ci es ss None None nm GN Eci Hn En Hne) as (cn & t & rots & rkeys & IF & HK & EC).
+    rewrite EC. pose proof (Hn 0) as H0. change (Nat.iter 0 rotT (map fst es, ss)) with (map fst es, ss) in H0.
+    destruct (nlookup nm (cs_names (cget st c))) as [j|] eqn:EN.
+    + cbn [fst snd yielded]. split; [discriminate|]. split.
+      * intros _. split; [reflexivity|]. split; [reflexivity|]. exists j. split; [reflexivity|]. congruence.
+      * intros j' E _. reflexivity.
+    + (* created *)
+      assert (ECr : snd (create ct st c (is_none (@None pstr)) nm (KCplx cn) rkeys (elem_ids es) (DCplx es ss t))
+                    = CRet (length (heap st)) true).
+      { unfold create. rewrite Eci, Ef. unfold alloc. cbn [snd].
+        assert (Eh : heap (if is_none (@None pstr) then bump_id ct st c else st) = heap st).
+        { cbn [is_none]. unfold bump_id. destruct (class_id ct st c); reflexivity. }
+        rewrite Eh. reflexivity. }
+      rewrite ECr. cbn [yielded]. split; [|split; [discriminate | intros j E; discriminate]].
+      intros x E. injection E as <-. pose proof (create_ret _ _ _ _ _ _ _ _ _ _ ECr) as Hg.
+      eexists _, cn. split; [split; [exact Hg | reflexivity]|]. cbn [o_cls o_key o_data].
+      split; [reflexivity|]. split; [reflexivity|]. split; [|eauto]. unfold canon_T. cbn [fst snd]. rewrite IF. reflexivity.
+Qed.
+
+(* ------------------------------------------------------------------ *)
+(* what a call keeps: every object stays where it is, only its liveness can change;
+   counters never become undefined                                      *)
+
+Record Keeps (st s : state) : Prop := mkKeeps {
+  kp_obj : forall i o, hget (heap st) i = Some o ->
+           exists o', hget (heap s) i = Some o' /\ o_cls o' = o_cls o /\ o_key o' = o_key o /\
+                      o_data o' = o_data o /\ o_children o' = o_children o /\ o_name o' = o_name o;
+  kp_ids : forall b, cs_id (cget s b) = cs_id (cget st b) \/ cs_id (cget s b) <> None;
+  kp_roots : roots s = roots st
+}.
+
+Lemma keeps_refl st : Keeps st st.
+Proof. constructor; auto. intros i o H. exists o. repeat split; auto. Qed.
+
+Lemma keeps_trans st s1 s2 : Keeps st s1 -> Keeps s1 s2 -> Keeps st s2.
+Proof.
+  intros [A1 A2 A3] [B1 B2 B3]. constructor.
+  - intros i o H. destruct (A1 i o H) as [o1 [H1 [E1 [E2 [E3 [E4 E5]]]]]].
+    destruct (B1 i o1 H1) as [o2 [H2 [F1 [F2 [F3 [F4 F5]]]]]]. exists o2. repeat split; congruence.
+  - intros b. destruct (B2 b) as [E|E]; [rewrite E; apply A2 | right; exact E].
+  - congruence.
+Qed.
+
+Lemma keeps_collect st : Keeps st (collect st).
+Proof.
+  constructor; [| intros b; left; rewrite cget_collect; reflexivity | reflexivity].
+  intros i o H. rewrite heap_collect, hget_sweep, H. cbn. eexists. split; [reflexivity|].
+  destruct (kept _ _ i); repeat split; reflexivity.
+Qed.
+
+Lemma keeps_create ct st c auto name k extra children d :
+  Keeps st (fst (create ct st c auto name k extra children d)).
+Proof.
+  unfold create. destruct (nth_error ct c) as [ci|]; [|apply keeps_refl].
+  set (st1 := if auto then bump_id ct st c else st).
+  assert (K1 : Keeps st st1).
+  { unfold st1. destruct auto; [|apply keeps_refl]. unfold bump_id. destruct (class_id ct st c); [|apply keeps_refl].
+    constructor; [intros i o H; exists o; repeat split; auto | | reflexivity].
+    intros b. unfold set_id. destruct (Nat.eq_dec c b) as [<-|Db]; [|left; rewrite cget_cput_other by exact Db; reflexivity].
+    destruct (Nat.lt_ge_cases c (length (classes st))) as [L|L].
+    - right. rewrite cget_cput_same by exact L. discriminate.
+    - left. unfold cget, cput. cbn. rewrite upd_oob by exact L. reflexivity. }
+  assert (Step : forall cs', Keeps st1 (cput (mkState (mkObj c name k (k :: extra) true children d :: heap st1) (classes st1) (roots st1)) c cs') \/ True) by auto.
+  assert (KA : forall cs', cs_id cs' = cs_id (cget st1 c) ->
+               Keeps st1 (cput (mkState (mkObj c name k (k :: extra) true children d :: heap st1) (classes st1) (roots st1)) c cs')).
+  { intros cs' Ei. constructor; [| | reflexivity].
+    - intros i o H. exists o. split; [apply hget_old_some; exact H | repeat split; reflexivity].
+    - intros b. left. destruct (Nat.eq_dec c b) as [<-|Db]; [|rewrite cget_cput_other by exact Db; reflexivity].
+      destruct (Nat.lt_ge_cases c (length (classes st1))) as [L|L].
+      + rewrite (cget_cput_same (mkState _ (classes st1) (roots st1))) by exact L. exact Ei.
+      + unfold cget, cput. cbn. rewrite upd_oob by exact L. reflexivity. }
+  destruct (c_fail ci); [|apply keeps_refl|]; unfold alloc; cbn [fst].
+  - eapply keeps_trans; [exact K1|]. unfold register. apply KA. reflexivity.
+  - eapply keeps_trans; [exact K1|]. eapply keeps_trans; [|apply keeps_collect]. unfold register_extra. apply KA. reflexivity.
+Qed.
+
+Lemma keeps_cplx_call ct c st seq sst name prefix : Keeps st (fst (cplx_call ct c st seq sst name prefix)).
+Proof.
+  unfold cplx_call. destruct (nth_error ct c); [|apply keeps_refl]. destruct seq as [es|].
+  - destruct (resolve_name _ _ _ _ _ _); [|apply keeps_refl]. destruct sst; [|apply keeps_refl].
+    destruct (negb _); [apply keeps_refl|]. destruct (Nat.eqb _ 0); [apply keeps_refl|].
+    destruct (rot_loop _ _ _ _ _ _) as [[ex cdict]|]; [|apply keeps_refl].
+    match goal with |- Keeps _ (fst (match ?y with _ => _ end)) => destruct y as [[cn e]|] end; [|apply keeps_refl].
+    destruct (sing_lookup _ _ _); try apply keeps_refl. apply keeps_create.
+  - destruct name; [|apply keeps_refl]. destruct (sing_lookup _ _ _); apply keeps_refl.
+Qed.
+
+(* a defined counter stays defined *)
+Lemma eff_id_keeps ct st s f : (forall b, cs_id (cget s b) = cs_id (cget st b) \/ cs_id (cget s b) <> None) ->
+  forall b z, eff_id f ct st b = Some z -> exists z', eff_id f ct s b = Some z'.
+Proof.
+  intros H. induction f as [|f IH]; intros b z E; [discriminate|]. cbn [eff_id] in *.
+  destruct (cs_id (cget s b)) as [z'|] eqn:Es; [eauto|].
+  destruct (H b) as [Eb|Eb]; [|congruence]. rewrite Es in Eb. rewrite <- Eb in E.
+  destruct (nth_error ct b) as [ci|]; [|discriminate]. destruct (c_parent ci) as [p|]; [|discriminate]. eapply IH; eauto.
+Qed.
+
+Lemma class_id_keeps ct st s c z : Keeps st s -> class_id ct st c = Some z -> exists z', class_id ct s c = Some z'.
+Proof. intros K. unfold class_id. apply eff_id_keeps. apply (kp_ids _ _ K). Qed.
+
+(* ------------------------------------------------------------------ *)
+(* the generator loop                                                   *)
+
+Record LoopInv (ct : ctable) (c i : nat) (X : list nat) (s : state) : Prop := mkLoopInv {
+  li_inv : Inv ct s;
+  li_rok : ROK s;
+  li_dok : DOK ct s;
+  li_root : In i (root_ids (roots s));
+  li_src : exists o', hget (heap s) i = Some o' /\ forall x, In x X -> In x (o_children o');
+  li_id : exists z, class_id ct s c = Some z
+}.
+
+Lemma root_ids_app a b : root_ids (a ++ b) = root_ids a ++ root_ids b.
+Proof. induction a as [|[x|] r IH]; cbn; [reflexivity | f_equal; exact IH | exact IH]. Qed.
+
+Lemma inv_push_root ct s x : Inv ct s -> is_live (heap s) x = true -> Inv ct (push_root s x).
+Proof.
+  intros [R [H1 H2 H3]] L. split; [destruct R as [R1 R2 R3]; constructor; assumption|].
+  constructor; [|exact H2 | exact H3]. intros sl j Hs. cbn [push_root roots heap] in *.
+  destruct (Nat.lt_ge_cases sl (length (roots s))) as [Lt|Ge].
+  - rewrite nth_error_app1 in Hs by exact Lt. apply (H1 sl j Hs).
+  - rewrite nth_error_app2 in Hs by exact Ge. destruct (sl - length (roots s)) as [|[|n]]; cbn in Hs; try discriminate.
+    injection Hs as <-. exact L.
+Qed.
+
+Lemma loopinv_children_live ct c i X s : LoopInv ct c i X s -> forall x, In x X -> is_live (heap s) x = true.
+Proof.
+  intros [I _ _ Hr [o' [Hg Hx]] _] x Hin. apply root_ids_in in Hr. destruct Hr as [sl Hs].
+  pose proof (hk_roots _ (proj2 I) sl i Hs) as L. unfold is_live in L. rewrite Hg in L.
+  apply (hk_child _ (proj2 I) i o' (conj Hg L) x). apply Hx. exact Hin.
+Qed.
+
+Definition KeepsO (st s : state) : Prop :=
+  forall i o, hget (heap st) i = Some o ->
+    exists o', hget (heap s) i = Some o' /\ o_cls o' = o_cls o /\ o_key o' = o_key o /\
+               o_data o' = o_data o /\ o_children o' = o_children o /\ o_name o' = o_name o.
+
+Lemma keepso_of st s : Keeps st s -> KeepsO st s. Proof. intros K i o H. apply (kp_obj _ _ K i o H). Qed.
+Lemma keepso_refl st : KeepsO st st. Proof. apply keepso_of, keeps_refl. Qed.
+Lemma keepso_trans st s1 s2 : KeepsO st s1 -> KeepsO s1 s2 -> KeepsO st s2.
+Proof.
+  intros A B i o H. destruct (A i o H) as [o1 [H1 [E1 [E2 [E3 [E4 E5]]]]]].
+  destruct (B i o1 H1) as [o2 [H2 [F1 [F2 [F3 [F4 F5]]]]]]. exists o2. repeat split; congruence.
+Qed.
+Lemma keepso_push s x : KeepsO s (push_root s x). Proof. intros i o H. exists o. repeat split; auto. Qed.
+
+Lemma owner_keeps ct s s' c y x :
+  owner_of s c y x -> KeepsO s s' -> Inv ct s' -> In x (root_ids (roots s')) -> owner_of s' c y x.
+Proof.
+  intros (o & cn & [Hg Hl] & Ec & Ek & Ecn & (es & ss & t & Ed)) K I Hr.
+  destruct (K x o Hg) as [o' [Hg' [E1 [E2 [E3 _]]]]].
+  apply root_ids_in in Hr. destruct Hr as [sl Hs]. pose proof (hk_roots _ (proj2 I) sl x Hs) as L.
+  unfold is_live in L. rewrite Hg' in L.
+  exists o', cn. split; [split; assumption|]. split; [congruence|]. split; [congruence|]. split; [exact Ecn|].
+  exists es, ss, t. congruence.
+Qed.
+
+Definition comp_ok (X : list nat) (p : list (list elem) * tab) (nseq : list elem) : Prop :=
+  strand_table_to_sequence ePlus (fst p) = Ok nseq /\
+  goodNE (map fst nseq, pair_table_to_dot_bracket cP (snd p)) /\
+  forall x, In x (elem_ids nseq) -> In x X.
+
+Definition GoodParts (X : list nat) (parts : list (list (list elem) * tab)) : Prop :=
+  Forall (fun p => exists nseq, comp_ok X p nseq) parts.
+
+Definition comp_of (p : list (list elem) * tab) : cplx :=
+  (match strand_table_to_sequence ePlus (fst p) with Ok nseq => map fst nseq | Err _ => [] end,
+   pair_table_to_dot_bracket cP (snd p)).
+
+(* the class of the object that is split *)
+Record ClassGood (ct : ctable) (c : nat) (ci : cinfo) : Prop := mkClassGood {
+  cg_kind : class_kind ct c = Some KindC;
+  cg_nth : nth_error ct c = Some ci;
+  cg_fail : c_fail ci = FNone;
+  cg_prefix : nonempty (c_prefix ci) = true
+}.
+
+Lemma auto_name ct s c ci z : class_id ct s c = Some z ->
+  resolve_name ct s c ci None None = Ok (c_prefix ci ++ z_dec z).
+Proof. intros E. unfold resolve_name. rewrite E. reflexivity. Qed.
+
+Lemma nonempty_app {A} (a b : list A) : nonempty a = true -> nonempty (a ++ b) = true.
+Proof. destruct a; [discriminate | reflexivity]. Qed.
+
+(* what the refusal of a component means *)
+Definition refused_at (ct : ctable) (c : nat) (ci : cinfo) (s : state) (y : cplx) : Prop :=
+  exists z j, class_id ct s c = Some z /\
+              nlookup (c_prefix ci ++ z_dec z) (cs_names (cget s c)) = Some j /\
+              klookup (KCplx y) (cs_canon (cget s c)) <> Some j.
+
+Lemma eff_id_classes ct s s' f : classes s' = classes s -> forall b, eff_id f ct s' b = eff_id f ct s b.
+Proof.
+  intros E. induction f as [|f IH]; intros b; [reflexivity|]. cbn [eff_id]. unfold cget. rewrite E.
+  destruct (cs_id _); [reflexivity|]. destruct (nth_error ct b) as [ci|]; [|reflexivity].
+  destruct (c_parent ci); [apply IH | reflexivity].
+Qed.
+
+Lemma loop_step ct c ci i X s p nseq :
+  ClassGood ct c ci -> LoopInv ct c i X s -> comp_ok X p nseq ->
+  let r := cplx_call ct c s (Some nseq) (Some (pair_table_to_dot_bracket cP (snd p))) None None in
+  match yielded (snd r) with
+  | Some x => LoopInv ct c i X (push_root (fst r) x) /\ owner_of (push_root (fst r) x) c (comp_of p) x /\ Keeps s (fst r)
+  | None => snd r = CErr eSingleton None /\ fst r = s /\ refused_at ct c ci s (comp_of p)
+  end.
+Proof.
+  intros [Hk Eci Ef Hp] L [Es [GN Hx]]. cbn zeta.
+  pose proof L as [I R D Hr [o' [Hg Hch]] [z Ez]].
+  pose proof (auto_name ct s c ci z Ez) as En.
+  pose proof (nonempty_app _ (z_dec z) Hp) as Hne.
+  assert (Ecomp : comp_of p = (map fst nseq, pair_table_to_dot_bracket cP (snd p))) by (unfold comp_of; rewrite Es; reflexivity).
+  destruct (unnamed_request_outcome ct s c ci nseq _ _ I R D Hk Eci Ef GN En Hne) as [Y [N _]].
+  set (r := cplx_call ct c s (Some nseq) (Some (pair_table_to_dot_bracket cP (snd p))) None None) in *.
+  assert (Hlive : forall es x, Some nseq = Some es -> In x (elem_ids es) -> is_live (heap s) x = true).
+  { intros es x E Hin. injection E as <-. apply (loopinv_children_live ct c i X s L). apply Hx. exact Hin. }
+  pose proof (callok_cplx_call ct c s (Some nseq) (Some (pair_table_to_dot_bracket cP (snd p))) None None I Hlive) as [I1 Lret].
+  fold r in I1, Lret.
+  pose proof (keeps_cplx_call ct c s (Some nseq) (Some (pair_table_to_dot_bracket cP (snd p))) None None) as K. fold r in K.
+  destruct (yielded (snd r)) as [x|] eqn:EY.
+  - destruct (Y x EY) as (o & cn & Hl & Ho).
+    assert (Lx : is_live (heap (fst r)) x = true) by (eapply live_obj_is_live; eauto).
+    split; [|split; [|exact K]].
+    + constructor.
+      * apply inv_push_root; assumption.
+      * apply (rok_cplx_call ct c s (Some nseq) _ None None I R Hlive). intros es ss E1 E2. injection E1 as <-. injection E2 as <-. exact GN.
+      * apply (dok_cplx_call ct c s (Some nseq) _ None None Hk D).
+      * cbn [push_root roots]. rewrite root_ids_app. apply in_or_app. left. rewrite (kp_roots _ _ K). exact Hr.
+      * cbn [push_root heap]. destruct (kp_obj _ _ K i o' Hg) as [o2 [H2 [_ [_ [_ [E4 _]]]]]]. exists o2. split; [exact H2|].
+        intros y Hy. rewrite E4. apply Hch. exact Hy.
+      * cbn [push_root]. destruct (class_id_keeps ct s (fst r) c z K Ez) as [z' Ez']. exists z'.
+        unfold class_id in *. rewrite (eff_id_classes ct (fst r) (push_root (fst r) x) _ eq_refl). exact Ez'.
+    + rewrite Ecomp. exists o, cn. exact (conj Hl Ho).
+  - destruct (N EY) as [E1 [E2 [j [Hj Hk']]]]. split; [exact E1|]. split; [exact E2|].
+    exists z, j. rewrite Ecomp. auto.
+Qed.
+
+Theorem split_loop_sound ct c ci i X : ClassGood ct c ci -> forall parts s acc s' res,
+  LoopInv ct c i X s -> GoodParts X parts -> split_loop ct c s parts acc = (s', res) ->
+  Inv ct s' /\ ROK s' /\ DOK ct s' /\ KeepsO s s' /\
+  match res with
+  | Ok ids => exists ys, ids = rev acc ++ ys /\ roots s' = roots s ++ map Some ys /\
+                         Forall2 (fun p x => owner_of s' c (comp_of p) x) parts ys
+  | Err k => k = eSingleton /\
+             exists done p rest ys, parts = done ++ p :: rest /\ roots s' = roots s ++ map Some ys /\
+                                    Forall2 (fun p x => owner_of s' c (comp_of p) x) done ys /\
+                                    refused_at ct c ci s' (comp_of p)
+  end.
+Proof.
+  intros CG. induction parts as [|p r IH]; intros s acc s' res L GP H; cbn [split_loop] in H.
+  - injection H as <- <-. pose proof L as [I R D _ _ _].
+    split; [exact I|]. split; [exact R|]. split; [exact D|]. split; [apply keepso_refl|].
+    exists []. rewrite !app_nil_r. split; [reflexivity|]. split; [reflexivity | constructor].
+  - inversion GP as [|? ? [nseq CO] GP']; subst. destruct p as [stb pt]. pose proof CO as [Es _]. cbn [fst] in Es.
+    rewrite Es in H. pose proof (loop_step ct c ci i X s (stb, pt) nseq CG L CO) as LS. cbn zeta in LS. cbn [snd] in *.
+    destruct (cplx_call ct c s (Some nseq) (Some (pair_table_to_dot_bracket cP pt)) None None) as [s1 r1] eqn:EC.
+    cbn [fst snd] in LS.
+    assert (Cont : forall x, yielded r1 = Some x ->
+              split_loop ct c (push_root s1 x) r (x :: acc) = (s', res) ->
+              Inv ct s' /\ ROK s' /\ DOK ct s' /\ KeepsO s s' /\
+              match res with
+              | Ok ids => exists ys, ids = rev acc ++ ys /\ roots s' = roots s ++ map Some ys /\
+                                     Forall2 (fun p x => owner_of s' c (comp_of p) x) ((stb, pt) :: r) ys
+              | Err k => k = eSingleton /\
+                         exists done p rest ys, (stb, pt) :: r = done ++ p :: rest /\ roots s' = roots s ++ map Some ys /\
+                                                Forall2 (fun p x => owner_of s' c (comp_of p) x) done ys /\
+                                                refused_at ct c ci s' (comp_of p)
+              end).
+    { intros x EY H2. rewrite EY in LS. destruct LS as [L1 [O1 K1]].
+      destruct (IH _ _ _ _ L1 GP' H2) as [I' [R' [D' [K' Res]]]].
+      assert (KO : KeepsO s s') by (eapply keepso_trans; [apply keepso_of; exact K1 | exact K']).
+      assert (Rt : forall ys, roots s' = roots (push_root s1 x) ++ map Some ys -> roots s' = roots s ++ map Some (x :: ys)).
+      { intros ys E. rewrite E. cbn [push_root roots map]. rewrite (kp_roots _ _ K1), <- app_assoc. reflexivity. }
+      assert (Ox : forall ys, roots s' = roots (push_root s1 x) ++ map Some ys -> owner_of s' c (comp_of (stb, pt)) x).
+      { intros ys E. apply (owner_keeps ct (push_root s1 x) s'); auto. rewrite E. cbn [push_root roots].
+        rewrite !root_ids_app. apply in_or_app. left. apply in_or_app. right. left. reflexivity. }
+      split; [exact I'|]. split; [exact R'|]. split; [exact D'|]. split; [exact KO|]. destruct res as [ids|k].
+      - destruct Res as [ys [E1 [E2 F]]]. exists (x :: ys). split; [rewrite E1; cbn [rev]; rewrite <- app_assoc; reflexivity|].
+        split; [apply Rt; exact E2|]. constructor; [apply (Ox ys E2) | exact F].
+      - destruct Res as [Ek [done [p' [rest [ys [E1 [E2 [F Rf]]]]]]]]. split; [exact Ek|].
+        exists ((stb, pt) :: done), p', rest, (x :: ys). split; [rewrite E1; reflexivity|].
+        split; [apply Rt; exact E2|]. split; [constructor; [apply (Ox ys E2) | exact F] | exact Rf]. }
+    destruct r1 as [id b|k [x|]].
+    + apply (Cont id eq_refl H).
+    + destruct (is_singleton_err k) eqn:Ek.
+      * apply (Cont x); [cbn; rewrite Ek; reflexivity | exact H].
+      * exfalso. cbn [yielded] in LS. rewrite Ek in LS. destruct LS as [E _]. injection E as E _. rewrite E, sing_true in Ek. discriminate.
+    + cbn [yielded] in LS. destruct LS as [E [Es1 Rf]]. injection E as ->. subst s1. injection H as <- <-.
+      pose proof L as [I R D _ _ _]. split; [exact I|]. split; [exact R|]. split; [exact D|]. split; [apply keepso_refl|].
+      split; [reflexivity|]. exists [], (stb, pt), r, []. rewrite app_nil_r. split; [reflexivity|]. split; [reflexivity|]. split; [constructor | exact Rf].
+Qed.
+
+(* ------------------------------------------------------------------ *)
+(* the operation s[dst:] = list(s[src].split())                          *)
+
+Lemma inv_trim ct s n extra : Inv ct s -> roots s = firstn n (roots s) ++ extra -> Inv ct (trim_roots s n).
+Proof.
+  intros [R [H1 H2 H3]] E. split; [destruct R as [R1 R2 R3]; constructor; assumption|].
+  constructor; [|exact H2 | exact H3]. intros sl j Hs. cbn [trim_roots roots heap] in *.
+  apply (H1 sl j). rewrite E. rewrite nth_error_app1; [exact Hs|]. apply nth_error_Some. congruence.
+Qed.
+
+Lemma inv_store_from ct ids : forall s dst, Inv ct s -> (forall x, In x ids -> is_live (heap s) x = true) ->
+  Inv ct (store_from s dst ids).
+Proof.
+  induction ids as [|x r IH]; intros s dst I L; [exact I|]. cbn [store_from]. apply IH.
+  - apply inv_set_root; [exact I|]. intros j E. injection E as <-. apply L. left. reflexivity.
+  - intros y Hy. cbn [set_root heap]. apply L. right. exact Hy.
+Qed.
+
+Lemma store_from_same ids : forall s dst, heap (store_from s dst ids) = heap s /\ classes (store_from s dst ids) = classes s.
+Proof. induction ids as [|x r IH]; intros s dst; [auto|]. cbn [store_from]. destruct (IH (set_root s dst (Some x)) (S dst)) as [A B]. rewrite A, B. auto. Qed.
+
+Lemma rok_same_heap s s' : heap s' = heap s -> classes s' = classes s -> ROK s -> ROK s'.
+Proof.
+  intros Eh Ec [K C]. split.
+  - intros i o k Hl Hk. rewrite Eh in Hl. unfold cget. rewrite Ec. apply (K i o k Hl Hk).
+  - intros i o Hl. rewrite Eh in Hl. apply (C i o Hl).
+Qed.
+
+Lemma dok_same_heap ct s s' : heap s' = heap s -> DOK ct s -> DOK ct s'.
+Proof. intros Eh. apply dok_sub. intros i o H. rewrite Eh in H. exact H. Qed.
+
+Record SplitReady (ct : ctable) (st : state) (src : nat) (i : nat) (ob : obj) (ci : cinfo)
+                  (parts : list (list (list elem) * tab)) : Prop := mkSplitReady {
+  sr_root : get_root st src = Some i;
+  sr_obj : hget (heap st) i = Some ob;
+  sr_class : ClassGood ct (o_cls ob) ci;
+  sr_id : exists z, class_id ct st (o_cls ob) = Some z;
+  sr_parts : exists es ss t ptab, o_data ob = DCplx es ss t /\ make_pair_table cP [cD] ss = Ok ptab /\
+                                  split_complex_pt (S (length ptab)) (elem_strands es) ptab = Ok parts;
+  sr_good : GoodParts (o_children ob) parts
+}.
+
+Lemma forall2_in_r {A B} (P : A -> B -> Prop) l l' y : Forall2 P l l' -> In y l' -> exists x, In x l /\ P x y.
+Proof.
+  induction 1 as [|a b l l' Hab _ IH]; intros Hy; [destruct Hy|]. destruct Hy as [<-|Hy].
+  - exists a. split; [left; reflexivity | exact Hab].
+  - destruct (IH Hy) as [x [H1 H2]]. exists x. split; [right; exact H1 | exact H2].
+Qed.
+
+Lemma firstn_app_exact {A} (l r : list A) : firstn (length l) (l ++ r) = l.
+Proof. rewrite firstn_app, Nat.sub_diag, firstn_all. cbn. apply app_nil_r. Qed.
+
+Theorem split_op_sound ct st dst src i ob ci parts :
+  Inv ct st -> ROK st -> DOK ct st -> SplitReady ct st src i ob ci parts ->
+  let r := split_op ct st dst src in
+  Inv ct (fst r) /\ ROK (fst r) /\ DOK ct (fst r) /\ Collected (fst r) /\
+  exists s' ys,
+    (* the state when the generator stops: the objects yielded so far are the owners of their components *)
+    Inv ct s' /\ roots s' = roots st ++ map Some ys /\ KeepsO st s' /\
+    match snd r with
+    | Yielded ids =>
+        ids = ys /\ Forall2 (fun p x => owner_of s' (o_cls ob) (comp_of p) x) parts ids /\
+        fst r = collect (store_from (trim_roots s' (length (roots st))) dst ids)
+    | XOut (Raised k e) =>
+        k = eSingleton /\ e = None /\
+        exists done p rest, parts = done ++ p :: rest /\
+                            Forall2 (fun p x => owner_of s' (o_cls ob) (comp_of p) x) done ys /\
+                            refused_at ct (o_cls ob) ci s' (comp_of p) /\
+                            fst r = collect (trim_roots s' (length (roots st)))
+    | XOut _ => False
+    end.
+Proof.
+  intros I R D [Hr Ho CG Hid (es & ss & t & ptab & Ed & Ept & Esp) GP]. cbn zeta.
+  unfold split_op. rewrite Hr, Ho, Ed, Ept, Esp.
+  assert (L0 : LoopInv ct (o_cls ob) i (o_children ob) st).
+  { constructor; auto.
+    - apply root_ids_in. unfold get_root in Hr. destruct (nth_error (roots st) src) as [[j|]|] eqn:E; try discriminate.
+      injection Hr as <-. exists src. exact E.
+    - exists ob. auto. }
+  destruct (split_loop ct (o_cls ob) st parts []) as [s' res] eqn:EL.
+  destruct (split_loop_sound ct (o_cls ob) ci i (o_children ob) CG parts st [] s' res L0 GP EL) as [I' [R' [D' [K' Res]]]].
+  destruct res as [ids|k]; cbn [fst snd].
+  - destruct Res as [ys [E1 [E2 F]]]. cbn [rev app] in E1. subst ys.
+    assert (Tr : Inv ct (trim_roots s' (length (roots st)))).
+    { apply (inv_trim ct s' _ (map Some ids)); [exact I'|]. rewrite E2 at 2. rewrite E2, firstn_app_exact. reflexivity. }
+    assert (Lv : forall x, In x ids -> is_live (heap (trim_roots s' (length (roots st)))) x = true).
+    { intros x Hx. cbn [trim_roots heap]. destruct (forall2_in_r _ _ _ _ F Hx) as [p [_ (o & cn & Hl & _)]]. eapply live_obj_is_live; eauto. }
+    pose proof (inv_store_from ct ids _ dst Tr Lv) as Ist.
+    destruct (store_from_same ids (trim_roots s' (length (roots st))) dst) as [Eh Ec].
+    split; [apply inv_collect; exact Ist|]. split; [apply rok_collect; apply (rok_same_heap s'); auto|].
+    split; [apply dok_collect; apply (dok_same_heap ct s'); auto|]. split; [apply collected_collect; apply (proj2 Ist)|].
+    exists s', ids. split; [exact I'|]. split; [exact E2|]. split; [exact K'|]. auto.
+  - destruct Res as [Ek [done [p [rest [ys [E1 [E2 [F Rf]]]]]]]].
+    assert (Tr : Inv ct (trim_roots s' (length (roots st)))).
+    { apply (inv_trim ct s' _ (map Some ys)); [exact I'|]. rewrite E2 at 2. rewrite E2, firstn_app_exact. reflexivity. }
+    split; [apply inv_collect; exact Tr|]. split; [apply rok_collect; apply (rok_same_heap s'); auto|].
+    split; [apply dok_collect; apply (dok_same_heap ct s'); auto|]. split; [apply collected_collect; apply (proj2 Tr)|].
+    exists s', ys. split; [exact I'|]. split; [exact E2|]. split; [exact K'|]. split; [exact Ek|]. split; [reflexivity|].
+    exists done, p, rest. auto.
+Qed.
